@@ -28,7 +28,7 @@ func TestC13Binary(t *testing.T) {
 	rec := vt.For("C13")
 	rec.Rule("binary level: `vipnode pool --store=persist --datadir D` receives over HTTP a generated series of acknowledged requests (light clients connect and send keep-alives, a wallet links nodes with pool_addNode), is ended by SIGKILL (sometimes leaving the beginning of an unfinished write at the end of the value log) or SIGTERM and started again on D, 1-2 times; oracle after each restart: pool_account reports the same linked nodes and balance as before, every request acknowledged before the restart is refused as a replay when sent again verbatim (node-signed and wallet-signed alike), and the next fresh request of each identity is accepted; non-trivial = a wallet-signed request before a restart; distinct by (request series, signals)")
 	idBase := 0
-	rapid.Check(t, func(rt *rapid.T) {
+	check(t, func(rt *rapid.T) {
 		dir := tempDir("c13-bin-")
 		defer removeAll(dir)
 		idBase++
